@@ -370,6 +370,14 @@ func genC16(t *rapid.T) c16Case {
 		o.LabelPrefix = fmt.Sprintf("v%d-", v)
 		c.Variants = append(c.Variants, gen.Graph(t, o))
 	}
+	// sometimes one of the documents lives on the host of a built-in meta-schema (under another path): nothing
+	// about such a document may be remembered from one call to the next either
+	if gen.Pct(t, "well-known host", 25) {
+		to := []string{"http://json-schema.org/draft-07/schema", "http://swagger.io/v3/schema.json", "http://json-schema.org/learn/x.json"}[gen.Uniform(t, "wkhost", 3)]
+		for i := range c.Variants {
+			c.Variants[i] = gen.Rehome(c.Variants[i], "https://s.example/sec.json", to)
+		}
+	}
 	// every variant must know every URL used by any variant (a document that does not exist in a variant is taken from variant 0)
 	all := map[string]bool{}
 	for _, v := range c.Variants {
